@@ -123,10 +123,11 @@ where
                 .evaluate_with::<I>()
                 .do_(selection::All::new())
                 .scope_(|builder| builder.do_(ls))
-                .update_best_individual()
                 .do_(replacement::MuPlusLambda::new(1))
                 // Drop the perturbed solution the local search result was compared against.
                 .do_(replacement::Generational::new(1))
+                // The survivor is the best of the perturbed solution and the local search result.
+                .update_best_individual()
                 .do_(Logger::new())
         })
         .build_component()
